@@ -633,6 +633,11 @@ func (s *Store) resolveWritePath(name string) (string, error) {
 		// write to the path that was checked: an absolute name is not cleaned
 		// by absPath, and ".." after a symbolic link resolves differently
 		path = target
+		// the check above is lexical: a symbolic link below the working
+		// directory may still lead the write out of it
+		if err := ensureLinksStayInside(base, target); err != nil {
+			return "", err
+		}
 	}
 	if s.DisableOverwrite {
 		if _, err := os.Stat(path); err == nil {
@@ -642,6 +647,60 @@ func (s *Store) resolveWritePath(name string) (string, error) {
 		}
 	}
 	return path, nil
+}
+
+// ensureLinksStayInside follows the symbolic links on the way from base to
+// target the way the operating system does when target is written, and returns
+// ErrPathTraversalDisallowed if the place finally written lies outside base.
+// target must be lexically inside base. Names that do not exist yet are taken
+// as they are.
+func ensureLinksStayInside(base, target string) error {
+	realBase, err := filepath.EvalSymlinks(base)
+	if err != nil {
+		if os.IsNotExist(err) {
+			return nil // nothing exists yet, so there is no link to follow
+		}
+		return err
+	}
+	rel, err := filepath.Rel(base, target)
+	if err != nil {
+		return ErrPathTraversalDisallowed
+	}
+	sep := string(filepath.Separator)
+	pending := strings.Split(rel, sep)
+	cur := realBase // always free of symbolic links
+	for links := 0; len(pending) > 0; {
+		name := pending[0]
+		pending = pending[1:]
+		switch name {
+		case "", ".":
+			continue
+		case "..":
+			cur = filepath.Dir(cur)
+			continue
+		}
+		next := filepath.Join(cur, name)
+		info, err := os.Lstat(next)
+		if err != nil || info.Mode()&os.ModeSymlink == 0 {
+			cur = next
+			continue
+		}
+		if links++; links > 255 {
+			return fmt.Errorf("%s: too many levels of symbolic links", target)
+		}
+		dest, err := os.Readlink(next)
+		if err != nil {
+			return err
+		}
+		if filepath.IsAbs(dest) {
+			cur = filepath.VolumeName(dest) + sep
+		}
+		pending = append(strings.Split(dest, sep), pending...)
+	}
+	if inside, err := filepath.Rel(realBase, cur); err != nil || inside == ".." || strings.HasPrefix(inside, ".."+sep) {
+		return ErrPathTraversalDisallowed
+	}
+	return nil
 }
 
 // status returns the nameStatus for the given name.
